@@ -103,6 +103,15 @@ def check_carbon(rxn):
         r.inconclusive = "oracle cannot parse"
         return r
     exp = "balanced" if ca == cb else ("products" if ca > cb else "reactants")
+    # the counter is generic (atom_type argument): ask for other elements first, then for carbon, in one process -
+    # whatever it memoises for one element must not leak into the answer for another
+    for el in ("O", "N", "Cl"):
+        ea, eb = oracle.count_element(sp[0], el), oracle.count_element(sp[1], el)
+        e_exp = "balanced" if ea == eb else ("products" if ea > eb else "reactants")
+        e_got = CheckCarbonBalance([{"reaction": rxn}], rsmi_col="reaction", symbol=">>", atom_type=el,
+                                   n_jobs=1).check_carbon_balance()[0]["carbon_balance_check"]
+        if e_got != e_exp:
+            r.fail("element-label:" + el, "carbon label", reaction=rxn, element=el, got=e_got, expected=e_exp, counts=[ea, eb])
     chk = CheckCarbonBalance([{"reaction": rxn}], rsmi_col="reaction", symbol=">>", atom_type="C", n_jobs=1)
     got = chk.check_carbon_balance()[0]["carbon_balance_check"]
     if got != exp:
@@ -304,6 +313,8 @@ def run_shard(spec, seed, tier, shard):
         sp = gen.periodic_species()
         for i, m in enumerate(sp):
             shard.add([m], check_mixture([m]), i)
+        for i, m in enumerate(gen.periodic_covalent()):
+            shard.add([m], check_mixture([m]), 50000 + i)
         # pairs of heavy species must not collapse into one key
         heavy = [s for s in sp if s.startswith("[") and s[1:3].strip("]+-H0123456789") and s.count("H") == 0][-80:]
         for i, (a, b) in enumerate(itertools.combinations(heavy[::4], 2)):
